@@ -174,11 +174,15 @@ class Count(nnx.Variable):
 
 class NLinear(nnx.Module):
   def __init__(self, din, dout, rngs):
-    self.w = nnx.Param(jax.random.normal(rngs.params(), (din, dout)))
-    self.b = nnx.Param(jnp.zeros((dout,)))
+    # metadata whose values are all falsy is still metadata
+    self.w = nnx.Param(jax.random.normal(rngs.params(), (din, dout)),
+                       trainable=False, group=0)
+    self.b = nnx.Param(jnp.zeros((dout,)), note='bias')
 
   def __call__(self, x):
-    return x @ self.w.value + self.b.value
+    # user code may rely on the metadata being there
+    scale = 1.0 if self.w.trainable is False and self.w.group == 0 else 2.0
+    return (x @ self.w.value) * scale + self.b.value
 
 
 class NNorm(nnx.Module):
@@ -250,6 +254,16 @@ def to_linen(case, ctx):
   for c in rng_cols:
     require(issubclass(variablelib.variable_type_from_name(c), nnx.RngState),
             lambda: f'unexpected collection {c!r}')
+  # metadata survives NNX -> Linen: the Linen variable is a box carrying it
+  lin = top['params']['lin'] if case['cls'] != 'linear' else top['params']
+  wbox, bbox = lin['w'], lin['b']
+  require(isinstance(wbox, meta.AxisMetadata) and getattr(
+      wbox, 'metadata', {}).get('trainable', None) is False and getattr(
+          wbox, 'metadata', {}).get('group', None) == 0,
+          lambda: f'metadata (trainable=False, group=0) of Variable w was '
+          f'lost going NNX -> Linen: got {type(wbox).__name__}')
+  require(isinstance(bbox, meta.AxisMetadata) and bbox.metadata.get('note')
+          == 'bias', 'metadata of Variable b was lost going NNX -> Linen')
   # reference NNX module holding the same state
   ref = cls(*args, rngs=nnx.Rngs(params=keys['params'],
                                  dropout=keys['dropout']))
